@@ -350,4 +350,3 @@ func doqScenarios(r *Run, what string, n int) {
 		r.Trace()
 	}
 }
-
